@@ -1,5 +1,6 @@
 import Nstd.Common.Basic
 import Nstd.Codec.Model
+import Nstd.Codec.Spec
 /-
   Line protocol of the Codec area (property C18).  Stateless: every op line is one call (or one
   batch of calls, summarised by a count and an FNV-1a digest) of the modelled functions.
@@ -17,6 +18,12 @@ import Nstd.Codec.Model
     fi32|fu32|fi64|fu64 <hex two's complement>   from*/to* round trip -> `<op> <text> <value back, hex>`
     pi32|pu32|pi64|pu64 <bytes of the text>      to* of arbitrary text -> `<op> <value, hex>`
   A modelled out-of-range access prints `OOB`.
+  Spec lines (answered by this driver only; the check compares them with Python, so that the
+  specifications the theorems are stated against are themselves tested):
+    spec-utf8 <start> <count>  -> `spec-utf8 <digest of the concatenated Spec.utf8 encodings>`
+    spec-b64 <bytes>           -> `spec-b64 <Spec.rfc4648Encode>`
+    spec-hex <bytes>           -> `spec-hex <Spec.upperHex>`
+    spec-dec <decimal>         -> `spec-dec <decDigits as text> <Spec.decimalValue of it>`
 -/
 open Nstd.Common Nstd.Generated.Codec
 namespace Nstd.Codec
@@ -191,6 +198,26 @@ def stepLine (st : Unit) (ws : List String) : Unit × String :=
   | ["pu64", d] =>
     match Nstd.Common.fromHex d with
     | some bs => s!"pu64 {hexN 16 (toUInt64 bs)}"
+    | none => "bad-op"
+  | ["spec-utf8", a, n] =>
+    match a.toNat?, n.toNat? with
+    | some a, some n =>
+      if a + n ≤ 1114112 then
+        let h := (List.range n).foldl (fun h k => let e := Spec.utf8 (a + k); fnvBytes (fnvByte h e.length) e) fnvInit
+        s!"spec-utf8 {hexN 16 h.toNat}"
+      else "bad-op"
+    | _, _ => "bad-op"
+  | ["spec-b64", d] =>
+    match Nstd.Common.fromHex d with
+    | some bs => s!"spec-b64 {toHex (Spec.rfc4648Encode bs)}"
+    | none => "bad-op"
+  | ["spec-hex", d] =>
+    match Nstd.Common.fromHex d with
+    | some bs => s!"spec-hex {toHex (Spec.upperHex bs)}"
+    | none => "bad-op"
+  | ["spec-dec", n] =>
+    match n.toNat? with
+    | some n => s!"spec-dec {asciiStr (decDigits n)} {Spec.decimalValue (decDigits n)}"
     | none => "bad-op"
   | _ => "bad-op")
 
